@@ -1674,6 +1674,14 @@ SDsetattr(int32       id,    /* IN: object ID */
         HGOTO_ERROR(DFE_ARGS, FAIL);
     }
 
+    /* SDend writes nothing to a file opened read-only: refuse before SDIapfromid looks the attribute list up
+       (for a dimension ID it would add an empty coordinate variable to the session) */
+    if ((handle = SDIhandle_from_id(id, SDSTYPE)) == NULL && (handle = SDIhandle_from_id(id, CDFTYPE)) == NULL)
+        handle = SDIhandle_from_id(id, DIMTYPE);
+    if (handle != NULL && !(handle->flags & NC_RDWR)) {
+        HGOTO_ERROR(DFE_DENIED, FAIL);
+    }
+
     /* determine what type of ID we've been given */
     if (SDIapfromid(id, &handle, &ap) == FAIL) {
         HGOTO_ERROR(DFE_ARGS, FAIL);
